@@ -45,18 +45,40 @@ Theorem C09_tx_exactly_once_when_emit_ok : forall ev s0 ops s rs,
 Proof. exact c09_tx_exactly_once_reachable. Qed.
 Print Assumptions C09_tx_exactly_once_when_emit_ok.
 
-(* What the interface's emit closure does to the wire: Ok and fits the link => the datagram is
-   transmitted exactly once; Err => it is not transmitted (at most a neighbor-discovery frame). *)
+(* What the interface's emit closure does to the wire.  Ok => the datagram is transmitted exactly
+   once if it fits the link; if it is an IPv4 datagram above the MTU that fits the fragmentation
+   buffer its first fragment is transmitted and the datagram is parked in the (then free)
+   fragmenter -- a busy fragmenter makes the closure answer EMIT_BUSY, so the datagram stays in
+   its socket and is never "Ok and dropped"; it is dropped only if it can never be sent (IPv6
+   above the MTU, IPv4 above the fragmentation buffer).  Err => nothing of it is transmitted
+   (at most a neighbor-discovery frame) and the fragmenter is untouched. *)
 Theorem C09_interface_emit : forall ev p st na res st' na' res' c,
   if_respond ev p (st, na, res) = Ok ((st', na', res'), c) ->
   (c = EMIT_OK ->
-     (pkt_total_len p <= if_mtu st /\ if_out st' = if_out st ++ [FO_Pkt p]) \/
+     (pkt_total_len p <= if_mtu st /\ if_out st' = if_out st ++ [FO_Pkt p] /\ if_frag st' = if_frag st) \/
+     (pkt_total_len p > if_mtu st /\ a_ver (p_dst p) = 4 /\ pkt_total_len p <= cfg_FRAGMENTATION_BUFFER_SIZE /\
+      if_out st' = if_out st ++ [FO_Frag 0 (if_max_frag st) true] /\
+      if_frag st' = Some (FO_Pkt p, pkt_total_len p, if_max_frag st + wipv4_HEADER_LEN)) \/
      (pkt_total_len p > if_mtu st /\
-      (if_out st' = if_out st \/ if_out st' = if_out st ++ [FO_Pkt p]))) /\
+      (a_ver (p_dst p) <> 4 \/ cfg_FRAGMENTATION_BUFFER_SIZE < pkt_total_len p) /\
+      if_out st' = if_out st /\ if_frag st' = if_frag st)) /\
   (c <> EMIT_OK ->
-     if_out st' = if_out st \/ exists k a, if_out st' = if_out st ++ [FO_Aux k a]).
+     if_frag st' = if_frag st /\
+     (if_out st' = if_out st \/ exists k a, if_out st' = if_out st ++ [FO_Aux k a])).
 Proof. exact c09_interface_emit. Qed.
 Print Assumptions C09_interface_emit.
+
+(* A datagram parked in the fragmenter leaves completely: ipv4_egress sends the remaining
+   fragments one per call (contiguous offsets, every piece but the last a multiple of 8 via
+   if_max_frag) and the datagram is reported exactly once, with its last fragment. *)
+Theorem C09_fragment_train_completes : forall fuel st f len sent,
+  if_frag st = Some (f, len, sent) -> if_budget st = None -> 0 < if_max_frag st ->
+  sent < len -> (Z.to_nat (len - sent) <= fuel)%nat ->
+  let st' := ipv4_egress_n fuel st in
+  if_frag_finished st' = true /\
+  if_out st' = if_out st ++ frag_train fuel (if_max_frag st) len sent ++ [f].
+Proof. exact c09_fragment_train_completes. Qed.
+Print Assumptions C09_fragment_train_completes.
 
 (* Every arrival stored by process is handed to the application exactly once, whole, in order
    -- or consumed by a recv_slice that reported Truncated; stored = consumed ++ still pending. *)
